@@ -273,6 +273,11 @@ class Parser:
 
         self.multi_line_comment = False
 
+        # per-run state: a second run() on the same object must start from scratch
+        self.statement = None
+        self.block_comments = []
+        self.comments = []
+
         for num, self.line in enumerate(lines):
             self.process_line(num != len(lines) - 1)
         if self.set_line:
